@@ -147,7 +147,21 @@ CGNSDLL void cg_configure_c_ptr(cgint_f *what, void *value, cgint_f *ier)
       return;
     }
 
-  /* EVERYTHING ELSE */
+  /* a pointer to two size_t values: passed on as it is */
+  } else if( (int)*what == CG_CONFIG_HDF5_ALIGNMENT) {
+    *ier = (cgint_f)cg_configure((int)*what, value);
+
+  /* options whose value is an int: the Fortran caller passes C_LOC of an INTEGER(C_INT) */
+  } else if( (int)*what == CG_CONFIG_COMPRESS ||
+             (int)*what == CG_CONFIG_FILE_TYPE ||
+             (int)*what == CG_CONFIG_HDF5_COMPRESS ||
+             (int)*what == CG_CONFIG_HDF5_DISKLESS ||
+             (int)*what == CG_CONFIG_HDF5_DISKLESS_WRITE ||
+             (int)*what == CG_CONFIG_HDF5_ELINK_CACHE_SIZE ||
+             (int)*what == CG_CONFIG_RESET) {
+    *ier = (cgint_f)cg_configure((int)*what, (void *)((size_t)(*(int *)value)));
+
+  /* EVERYTHING ELSE: a size_t */
   } else {
     *ier = (cgint_f)cg_configure((int)*what, (void *)(*(size_t *)value));
   }
